@@ -775,7 +775,16 @@ class ProcState(object):
                 continue
             bindings = dict(mod.__dict__)
             contents, fattrs, caches = {}, {}, []
+            self.defaults = getattr(self, "defaults", [])
             for k, v in bindings.items():
+                # mutable default arguments of functions defined here (`def f(x, cache={})`) are process state too
+                if callable(v) and getattr(v, "__module__", None) == name:
+                    for dv in list(getattr(v, "__defaults__", None) or ()) + list((getattr(v, "__kwdefaults__", None) or {}).values()):
+                        if isinstance(dv, self.CONTAINERS):
+                            try:
+                                self.defaults.append((dv, copy.deepcopy(dv)))
+                            except Exception:
+                                pass
                 if k.startswith("__"):
                     continue
                 if isinstance(v, self.CONTAINERS) and not isinstance(v, type(os.environ)):
@@ -840,6 +849,19 @@ class ProcState(object):
                     md[k].cache_clear()
                 except Exception:
                     pass
+        for obj, orig in getattr(self, "defaults", []):
+            try:
+                if obj != orig:
+                    if isinstance(obj, dict):
+                        obj.clear()
+                        obj.update(copy.deepcopy(orig))
+                    elif isinstance(obj, list):
+                        obj[:] = copy.deepcopy(orig)
+                    else:
+                        obj.clear()
+                        obj.update(orig)
+            except Exception:
+                pass
         # caches created *after* import (a change under test may add new lru_cache-decorated functions: they are part
         # of `bindings` because the baseline is captured after import; functions defined later are dropped above)
 
